@@ -20,6 +20,9 @@ text extractor and the CMap parser, restricted to crate-local bodies.
     its limit test (shared with C08-R5).
  R6 explicit panic sites (`unwrap`, `expect`, `panic!`, `unreachable!`, `assert!`) in scope are
     enumerated; each must be discharged by a recognised infallible producer or be listed with a reason.
+ R7 allocation sizes: `with_capacity(n)`, `vec![x; n]`, `reserve(n)`, `resize(n, ..)` whose size is an untrusted integer (as in
+    R1, carried through parameters: an argument that is untrusted and unbounded at some call site makes the parameter untrusted)
+    are dominated by an ordered comparison of that value with an upper bound (not merely `< 0` / `> 0`).
 Not decided: wall-clock bounds, total allocation, panics depending on values of unknown provenance
 (counted as undecided), arithmetic inside dependencies.
 """
@@ -108,6 +111,24 @@ def run(ctx):
     ctx.counts["R1:undecided (unknown provenance)"] = tally["undecided"]
     ctx.undecided += tally["undecided"]
     ctx.floor("R1", "arithmetic asserts in scope", sum(tally.values()), 600)
+    # ---- R7 allocation sizes
+    na = 0
+    ordn7 = {}
+    for fn, b, nm, cls, g in ar.alloc_sites():
+        na += 1
+        owner = fn.parent or fn.id
+        if cls[0] != "U":
+            continue
+        k0 = "%s:%s" % (owner, nm)
+        ordn7[k0] = ordn7.get(k0, 0) + 1
+        key = "alloc:%s#%d" % (k0, ordn7[k0])
+        if g:
+            ctx.ok("R7", key, "untrusted size compared with an upper bound first", fn.where(b))
+        else:
+            ctx.violation("R7", key, "%s allocates `%s(n)` with n taken from the file (%s) and no upper bound: a few bytes of input "
+                          "(`/Length 9999999999999`) request terabytes and the process aborts in the allocator instead of returning an "
+                          "error" % (L.short(owner), nm, cls[1]), fn.where(b), {"call_path": facts.path_to(pred, owner)[-5:]})
+    ctx.floor("R7", "size-taking allocations in scope", na, 30)
     ctx.floor("R1", "functions returning untrusted integers", len(ar.ret_u), 20)
     # ---- R2
     sub = type(ctx)(ctx.prop, ctx.tier, ctx.facts, ctx.config)
